@@ -133,6 +133,17 @@ class Unsupported(Exception):
     pass
 
 
+def attr_digest(a) -> str:
+    """A short digest of an attribute's VALUE (the model renders attribute names only; values matter when two FunctionProtos of
+    one key are compared)."""
+    import hashlib
+
+    try:
+        return hashlib.sha1(a._to_onnx().SerializeToString(deterministic=True)).hexdigest()[:10]
+    except Exception:  # noqa: BLE001
+        return "?"
+
+
 class Reflect:
     """The program as ``build`` will see it: reachable object graph → Gallina ``prog`` + ``request``."""
 
@@ -178,7 +189,7 @@ class Reflect:
                     f"{coq_list([coq_str(x) for x in op.func_outputs.get_fields().keys()])} {coq_list([coq_str(x) for x in op.func_attrs.keys()])}")
             for k, a in op.attrs.get_fields().items():
                 if a is not None:
-                    attrs.append((a._name, None))
+                    attrs.append((a._name, attr_digest(a)))
         else:
             for k, a in op.attrs.get_fields().items():
                 if a is None:
@@ -186,7 +197,7 @@ class Reflect:
                 if isinstance(a, AttrGraph):
                     attrs.append((k, self.graph(a.value)))
                 else:
-                    attrs.append((a._name, None))
+                    attrs.append((a._name, attr_digest(a)))
         outs = op.outputs.get_vars()
         vtys = []
         for v in outs.values():
@@ -243,7 +254,8 @@ class Reflect:
         V, L = self.V, coq_list
         ns = []
         for nd in self.nodes:
-            attrs = L([f"({coq_str(k)}, {'AVal EmptyString' if g is None else f'AGraph {g}'})" for k, g in nd["attrs"]])
+            attrs = L([f"({coq_str(k)}, {'AVal EmptyString' if g is None else f'AVal {coq_str(g)}' if isinstance(g, str) else f'AGraph {g}'})"
+                       for k, g in nd["attrs"]])
             vtys = L(["None" if t is None else f"Some {{| tshow := {coq_str(t[0])}; tconcrete := {coq_bool(t[1])} |}}" for t in nd["vtys"]])
             vnames = L([coq_opt(None if n is None else coq_str(n)) for n in nd["vnames"]])
             ns.append(
@@ -795,6 +807,7 @@ class GenX(Gen):
         self.custom = make_custom_op()
         self.nfun = 0
         self.alt_names = set()
+        self.intent_problems = []
 
     def inner_model(self):
         rng, op = self.rng, self.op
@@ -837,12 +850,33 @@ class GenX(Gen):
         from spox._function import to_function
 
         f = to_function(name, domain)(body)
-        return lambda a, b: list(f(a, b))
+        expect = "Add" if kind == 0 else "Mul" if kind == 1 else "Sub"
+
+        def call(a, b):
+            r = list(f(a, b))
+            # the operator that was just applied must be THIS definition (its body as written above), not another function that
+            # happens to carry the same name / domain somewhere else in the process
+            try:
+                top = list(r[0]._op.func_graph.requested_results.values())[0]._op
+                if inner is not None:
+                    ok = isinstance(top, Function)
+                else:
+                    ok = top.op_type.identifier == expect
+                if not ok:
+                    self.intent_problems.append(f"function {domain}:{name} was defined with a body ending in "
+                                                f"{'a function call' if inner is not None else expect} but the applied operator's body ends in {top.op_type.identifier}")
+            except Exception:  # noqa: BLE001
+                pass
+            return r
+
+        return call
 
     def program(self):
         rng = self.rng
         self.models = [self.inner_model() for _ in range(rng.randint(1, 2))] if "inline" in self.features else []
         self.funcs = []
+        self.nfun, self.alt_names = 0, set()     # every program defines ITS functions F0, F1, ... (same names, other bodies)
+        self.intent_problems = []
         if "func" in self.features:
             for _ in range(rng.randint(1, 3)):
                 self.funcs.append(self.make_function())
